@@ -1,4 +1,4 @@
-//go:build verif && (all || c17)
+//go:build verif && (all || c16 || c17)
 
 package exit
 
